@@ -192,6 +192,7 @@ def memsim_ops(config, flags):
             reg(f'op_view3_fixed<{t},{m},{n},{p}>', 'view_fixed')
             reg(f'op_colmajor<{t},{m},{n},{p}>', 'layout')
             reg(f'op_permute3<{t},{m},{n},{p}>', 'permute')
+            reg(f'op_permute_expr<{t},{m},{n},{p}>', 'permute_expr', keep=True)
             reg(f'op_own_reduce<{t},{m},{n},{p}>', 'own_reduce')
             if t != 'Int64':
                 reg(f'op_einsum_3<{t},{m},{n},{p}>', 'einsum')
@@ -207,8 +208,9 @@ def memsim_ops(config, flags):
                 reg(f'op_badindex4<{t},{sh4}>', 'badindex', 'F_BADINDEX')
         reg(f'op_cast<{t},{"double" if t != "double" else "float"},3,5>', 'cast')
         reg(f'op_cast<{t},{"int" if t != "int" else "float"},2,9>', 'cast')
-        for sh in ('3', '5', '9', '17', '33', '3,5', '2,2,7'):
-            reg(f'op_minmax<{t},{sh}>', 'minmax', 'F_ANYALIGN', keep=True)
+        if not any(x in flags for x in ('avx512', 'DONT_VECTORISE')):      # min()/max() do not compile under AVX-512 (no minimum()/maximum() member)
+            for sh in ('3', '5', '9', '17', '33', '3,5', '2,2,7'):
+                reg(f'op_minmax<{t},{sh}>', 'minmax', 'F_ANYALIGN', keep=True)
         for sh4 in ('2,3,2,5', '2,2,3,4', '3,2,2,9'):
             reg(f'op_permute4<{t},{sh4}>', 'permute', keep=True)
         for n in (3, 7, 9, 17, 33):
@@ -232,6 +234,7 @@ def memsim_ops(config, flags):
                 reg(f'op_tmatmul<{t},{m},{k},{n}>', 'tmatmul')
             if i % 4 == 2:
                 reg(f'op_einsum_mm<{t},{m},{k},{n}>', 'einsum')
+                reg(f'op_einsum_expr<{t},{m},{k},{n}>', 'einsum_expr')
             if n == 1 or i % 5 == 0:
                 reg(f'op_matvec<{t},{m},{k}>', 'matvec')
         for (m, n) in SHAPES2[1:13]:   # outer of two 1-vectors is ambiguous
@@ -496,13 +499,36 @@ def gen_viewsim(bdir, config, flags):
 # =============================================================================== mapsim catalogue
 M_SHAPES = [((6,), (2, 3), (3, 2)), ((12,), (3, 4), (2, 2, 3)), ((16,), (4, 4), (2, 2, 4)), ((17,), (1, 17), (17, 1)), ((24,), (4, 6), (2, 3, 4)),
             ((9,), (3, 3), (1, 9)), ((35,), (5, 7), (7, 5)), ((64,), (8, 8), (4, 4, 4)), ((30,), (2, 15), (2, 3, 5)), ((48,), (6, 8), (2, 2, 3, 4)),
-            ((7,), (7, 1), (1, 1, 7)), ((33,), (3, 11), (11, 3))]
+            ((7,), (7, 1), (1, 1, 7)), ((33,), (3, 11), (11, 3)), ((12,), (2, 6), (2, 3, 2)), ((12,), (4, 3), (3, 2, 2)), ((8,), (2, 4), (2, 1, 4))]
 M_KINDS = ['K_SCALAR', 'K_TENSOR', 'K_EXPR', 'K_SELF_EXPR', 'K_METHOD', 'K_ELEM', 'K_FIXVIEW', 'K_DYNVIEW', 'K_REDUCE', 'K_READ_EXPR', 'K_MATMUL',
            'K_REWRAP', 'K_SOURCE_WRITE', 'K_CTOR_LAYOUT', 'K_MAP_COPY', 'K_CROSS_HANDLE']
 
 
+def gen_il_header(bdir):
+    """initializer-list construction for every rank-2 and rank-3 shape of the mapsim catalogue (nested literal lists)"""
+    seen = set(); out = ['// generated by sim/gen/catalog.py', 'namespace mapsim {']
+    for shapes in M_SHAPES:
+        for sh in shapes:
+            if len(sh) not in (2, 3) or sh in seen:
+                continue
+            seen.add(sh)
+            if len(sh) == 2:
+                m, n = sh
+                body = '{' + ', '.join('{' + ', '.join(f'v[{i * n + j}]' for j in range(n)) + '}' for i in range(m)) + '}'
+            else:
+                m, n, p = sh
+                body = '{' + ', '.join('{' + ', '.join('{' + ', '.join(f'v[{(i * n + j) * p + k}]' for k in range(p)) + '}' for j in range(n)) + '}' for i in range(m)) + '}'
+            dims = ', '.join(map(str, sh))
+            out.append(f'template <class Ten, class T> struct IL<Ten, T, shape_<{dims}>> {{ enum {{ available = 1 }}; static Ten make(const T *v) {{ return Ten{body}; }} }};')
+    # extra non-square rank-3 shapes that are not handles of any universe are exercised by the constructor step directly
+    out.append('}')
+    with open(os.path.join(bdir, 'il_gen.h'), 'w') as f:
+        f.write('\n'.join(out) + '\n')
+
+
 def gen_mapsim(bdir, config, flags):
     files = []; decl = []
+    gen_il_header(bdir)
     lite = config.endswith('@lite')
     ui = 0
     for i, shapes in enumerate(M_SHAPES):
